@@ -65,7 +65,7 @@ def _exp(v):
     return sx.SymReal(r)
 
 
-class _NPF:
+class _NPF(sx.Conversions):
     """numpy for sklearn_transform_inv_fct under SX"""
 
     def __init__(self, perm_stub=None):
